@@ -1,5 +1,6 @@
 import Pycoin.Proofs.VMCond
 import Pycoin.Proofs.VMNum
+import Pycoin.Proofs.VMGetOp
 /-!
 C03M — the Lean model of pycoin's script VM (`Pycoin.VM`, tied to the code by `harness/props/c03m.py`) against the
 consensus specification `Pycoin.Spec.Consensus` (Bitcoin Core's interpreter, sibling builder).
@@ -68,5 +69,36 @@ theorem C03M_boolMinimal_refuted (v : Bytes) : ∃ e, boolFromScriptBytes v true
   cases h : intFromScriptBytes v true with
   | error e => exact ⟨e, rfl⟩
   | ok n => exact ⟨_, rfl⟩
+
+/-! ## decoder -/
+
+/-- C03.getOp_refines, proved outside the excluded operand classes (`NotExcluded`: a PUSHDATA length field cut short
+by the end of the script; PUSHDATA2 of exactly 256 bytes and PUSHDATA4 of exactly 65536 bytes under MINIMALDATA):
+for every script, every `pc` inside it and both settings of `verify_minimal_data`, `get_opcode` returns what
+`GetScriptOp` + `CheckMinimalPush` return (truncation ⇒ `is_ok = False`, whence BAD_OPCODE even in dead branches). -/
+theorem C03M_getOp_refines_partial (script : Bytes) (pc : Nat) (vm : Bool) (hpc : pc < script.length)
+    (hex : NotExcluded (script.drop pc)) : GetOpRefines script pc vm := getOp_refines script pc vm hpc hex
+
+example : NotExcluded [0x4d, 0x02, 0x00, 7, 8] := by simp [NotExcluded, leNat]
+
+/-- the exclusion is needed (1): `4c` at the end of a script is decoded as a successful push of the empty string
+(Core: `GetScriptOp` fails, BAD_OPCODE) -/
+theorem C03M_getOp_truncated_length_refuted :
+    ¬ ∀ script pc vm, pc < script.length → GetOpRefines script pc vm := by
+  intro h
+  have h1 := h [0x4c] 0 false (by decide)
+  have hs : getScriptOp (List.drop 0 [0x4c]) = none := by decide
+  simp only [GetOpRefines, hs] at h1
+  obtain ⟨f, hf, hok, _⟩ := h1
+  have hm : getOpcode [0x4c] 0 false = .ok ⟨76, some [], 1, true⟩ := by decide +kernel
+  rw [hm] at hf
+  cases hf
+  cases hok
+
+/-- the exclusion is needed (2), §8 row 29: the canonical PUSHDATA2 of 256 bytes is refused under MINIMALDATA -/
+theorem C03M_getOp_minimal256_refuted :
+    getOpcode ([0x4d, 0x00, 0x01] ++ List.replicate 256 0x42) 0 true = .error nonMinimal ∧
+    checkMinimalPush (List.replicate 256 0x42) 0x4d = true := by
+  constructor <;> decide +kernel
 
 end Pycoin.VM
